@@ -19,6 +19,7 @@ server field).  K-task and the search run every raise site x every way of
 producing output afterwards (body returned, write() from an earlier call, a
 further start_response call with / without exc_info, file wrapper)."""
 import json
+import os
 
 from harness import task as T
 from lib import vcommon
@@ -311,10 +312,26 @@ def run(ctx):
     tables_real = ",".join(hexb(w.encode()) for w in wu.weekdayname) + " " + ",".join(hexb(m.encode()) for m in wu.monthname[1:])
     if tables_model != tables_real or wu.monthname[0] is not None:
         date_bad.append(("tables", tables_real, tables_model))
-    for t, real, a in date_bad[:2]:
+    # the statement itself on the real function: IMF-fixdate up to the year 9999, printable ASCII always
+    import re as _re
+    imf = _re.compile(r"(Mon|Tue|Wed|Thu|Fri|Sat|Sun), [0-9]{2} (Jan|Feb|Mar|Apr|May|Jun|Jul|Aug|Sep|Oct|Nov|Dec) [0-9]{4} [0-9]{2}:[0-9]{2}:[0-9]{2} GMT")
+    date_spec_bad = []
+    for t in stamps:
+        try:
+            real = wu.build_http_date(t)
+        except Exception as e:  # noqa
+            real = "EXC:" + type(e).__name__
+        if any(not (32 <= ord(ch) <= 126) for ch in real) or (t < 253402300800 and not imf.fullmatch(real)):
+            date_spec_bad.append((t, real))
+    for t, real in date_spec_bad[:2]:
+        ctx.report("datespec:%s" % t, "build_http_date(%s) = %r is not an IMF-fixdate of printable ASCII" % (t, real),
+                   {"kind": "date", "when": t, "expected": "Www, DD Mon YYYY HH:MM:SS GMT", "observed": real, "failing_input_found": True})
+    for t, real, a in ([] if date_spec_bad else date_bad[:2]):
         ctx.report("date:%s" % t, "build_http_date(%s): real %r, Model/HttpDate.v %s" % (t, real, a),
                    {"kind": "date", "when": t, "expected": a, "observed": real, "failing_input_found": False,
                     "note": "C08_date_clean / C08_date_shape speak for the code only while this correspondence holds"})
+    ctx.oblige("S-date: the real build_http_date yields printable ASCII on every time stamp tried and an IMF-fixdate up to the year 9999",
+               not date_spec_bad, "%d deviations" % len(date_spec_bad))
     ctx.oblige("K-date: Model/HttpDate.v equals the real build_http_date on %d time stamps (epoch, every month boundary of 12 years incl. leap and century "
                "years, 2038 / 2106 roll-overs, year 9999 and beyond, random) and the weekday / month name tables are the source's" % len(stamps),
                not date_bad, "%d differences" % len(date_bad))
@@ -424,6 +441,16 @@ def replay(data):
     if data.get("kind") == "oracle":
         print("oracle hypothesis: " + data.get("detail", ""))
         return 1
+    if data.get("kind") == "date":
+        import re as _re
+        from waitress import utilities as wu
+        real = wu.build_http_date(data["when"])
+        ok = all(32 <= ord(ch) <= 126 for ch in real) and (data["when"] >= 253402300800 or _re.fullmatch(
+            r"(Mon|Tue|Wed|Thu|Fri|Sat|Sun), [0-9]{2} (Jan|Feb|Mar|Apr|May|Jun|Jul|Aug|Sep|Oct|Nov|Dec) [0-9]{4} [0-9]{2}:[0-9]{2}:[0-9]{2} GMT", real))
+        rp = os.path.join(vcommon.VERIF, "ocaml", "task", "runner")
+        model = vcommon.Runner(rp).query(["date %d" % data["when"]])[0] if os.path.exists(rp) else None
+        print("build_http_date(%d) now: %r; model: %s; IMF-fixdate / printable: %s" % (data["when"], real, model, bool(ok)))
+        return 0 if ok and (model is None or model == hexb(real.encode("latin-1"))) else 1
     case = data["case"]
     real, extra = T.run_real(case)
     if data.get("kind") == "search":
